@@ -511,6 +511,10 @@ def run(tier):
     runner = Runner(chk, graph_every=max(1, nvalid // (150 if tier == "quick" else 500)))
     for case in cases:
         runner.run_case(case)
+    keys = {}
+    for key, _, _ in chk.violations:
+        keys[key] = keys.get(key, 0) + 1
+    chk.cov["violation_keys"] = dict(sorted(keys.items()))
     chk.cov["stats"] = dict(runner.stats, skipped_after_hang_budget=runner.skipped_after_hang,
                             emitted=len(cases), specified_compiled=nvalid, specified_rejected=len(cases) - nvalid)
     chk.cov["rule"] = ("one case per choice vector of Dsl.tla (depth, reuse, execute order, naming scheme, reference spelling, pass-down "
